@@ -497,3 +497,114 @@ def _derived_from_target(fn, d, tvars):
                 continue
         return False
     return True
+
+
+# ---- ESC1: member names reach pointer text only through the RFC 6901 encoder -----------------------------------------
+
+RAW_TEXT_SINKS = {'sprintf': 'fmt', 'strcat': 1, 'strcpy': 1, 'memcpy': 1, 'strncpy': 1, 'strncat': 1}
+
+
+def _raw_sink_args(call):
+    """argument expressions of a libc call whose bytes are copied verbatim into the destination text"""
+    cn = callee_name(call)
+    if cn not in RAW_TEXT_SINKS:
+        return []
+    if cn == 'sprintf':
+        from .out import parse_format
+        fmt = strip_casts(call['args'][1]) if len(call['args']) > 1 else {}
+        if fmt.get('k') != 'str':
+            return list(call['args'][2:])
+        out = []
+        ai = 2
+        for piece in parse_format(fmt['bytes']):
+            if piece[0] == 'lit':
+                continue
+            if piece[1] == 's' and ai < len(call['args']):
+                out.append(call['args'][ai])
+            ai += 1
+        return out
+    i = RAW_TEXT_SINKS[cn]
+    return [call['args'][i]] if i < len(call['args']) else []
+
+
+def esc1(units, R):
+    """A member name (X->string of a node) becomes part of a JSON pointer only through encode_string_as_pointer: it is
+    never an argument that sprintf("%s") / strcat / strcpy / memcpy copy verbatim, neither directly nor through a
+    parameter of a helper that does so ('/' and '~' in the name would otherwise change which location the pointer names)."""
+    u = units['cJSON_Utils.c']
+    # parameters of Utils functions that end up copied verbatim
+    raw = {}
+    changed = True
+    while changed:
+        changed = False
+        for fn in u.function_list:
+            pidx = {p['d']: i for i, p in enumerate(fn.params)}
+            for c in fn.calls():
+                cn = callee_name(c)
+                sinks = list(_raw_sink_args(c))
+                if cn in raw:
+                    sinks += [c['args'][i] for i in raw[cn] if i < len(c['args'])]
+                for a in sinks:
+                    a0 = strip_casts(a)
+                    if a0.get('k') == 'ref' and a0.get('d') in pidx:
+                        if pidx[a0['d']] not in raw.setdefault(fn.name, set()):
+                            raw[fn.name].add(pidx[a0['d']])
+                            changed = True
+    n = 0
+    for fn in u.function_list:
+        # key-valued expressions: X->string of a node, or a local that only ever holds one
+        keylocals = set()
+        for d in fn.locals():
+            srcs = [strip_casts(d['init'])] if 'init' in d and not is_null_const(d['init']) else []
+            srcs += [strip_casts(a['r']) for a in assignments(fn) if is_ref(a['l']) and strip_casts(a['l'])['d'] == d['d'] and not is_null_const(a['r'])]
+            if srcs and all(x.get('k') == 'mem' and x['f'] == 'string' and 'cJSON' in u.ty(strip_casts(x['b'])['ty'])['s'] for x in srcs):
+                keylocals.add(d['d'])
+
+        def is_key(e):
+            e = strip_casts(e)
+            if e.get('k') == 'mem' and e['f'] == 'string' and 'cJSON' in u.ty(strip_casts(e['b'])['ty'])['s']:
+                return True
+            return e.get('k') == 'ref' and e.get('d') in keylocals
+        for c in fn.calls():
+            cn = callee_name(c)
+            sinks = [(a, 'copied verbatim by %s' % cn) for a in _raw_sink_args(c)]
+            if cn in raw:
+                sinks += [(c['args'][i], 'parameter %d of %s, which copies it verbatim into the text it builds' % (i + 1, cn))
+                          for i in raw[cn] if i < len(c['args'])]
+            for (a, how) in sinks:
+                if is_key(a):
+                    n += 1
+                    R.ob('ESC1', fn, c, 'member name %s reaches pointer text only through the encoder' % expr_str(strip_casts(a))[:40], False,
+                         '%s is %s: a "/" or "~" in the name is not escaped (RFC 6901 section 3)' % (expr_str(strip_casts(a))[:40], how),
+                         key='rawkey:%s:%s' % (cn, expr_str(strip_casts(a))[:40]))
+            if cn in ('encode_string_as_pointer', 'pointer_encoded_length'):
+                for a in c['args']:
+                    if is_key(a):
+                        n += 1
+                        R.ob('ESC1', fn, c, 'member name %s reaches pointer text only through the encoder' % expr_str(strip_casts(a))[:40], True,
+                             'passed to %s' % cn, key='enc:%s:%s' % (cn, expr_str(strip_casts(a))[:40]))
+            elif cn in u.functions:
+                for i, a in enumerate(c['args']):
+                    if i in raw.get(cn, ()):
+                        continue
+                    if is_key(a) and _param_reaches_encoder(u, u.functions[cn], i):
+                        n += 1
+                        R.ob('ESC1', fn, c, 'member name %s reaches pointer text only through the encoder' % expr_str(strip_casts(a))[:40], True,
+                             '%s hands it to the encoder' % cn, key='encvia:%s:%s' % (cn, expr_str(strip_casts(a))[:40]))
+    R.floor('ESC1', 'member names flowing into pointer text', n, 2)
+
+
+def _param_reaches_encoder(u, h, i, depth=0):
+    if i >= len(h.params) or depth > 3:
+        return False
+    d = h.params[i]['d']
+    for c in h.calls():
+        cn = callee_name(c)
+        for j, a in enumerate(c['args']):
+            a0 = strip_casts(a)
+            if a0.get('k') == 'ref' and a0.get('d') == d:
+                if cn in ('encode_string_as_pointer', 'pointer_encoded_length'):
+                    return True
+                if cn in u.functions and _param_reaches_encoder(u, u.functions[cn], j, depth + 1):
+                    return True
+    return False
